@@ -156,6 +156,10 @@ def describe(impl, events, idx, steps):
 def check_script(impl, model, lines, timeout=RUN_LIMIT):
     """-> list of (sig, what, detail, ctx, idx); status string"""
     rc, out, err = run_script(impl, lines, timeout=timeout)
+    if rc == 124 and timeout >= RUN_LIMIT:
+        # a run that normally takes seconds hit the limit: before it is judged a hang, run it once more with four
+        # times the limit (a machine that is heavily oversubscribed must not turn into an alarm; a real hang repeats)
+        rc, out, err = run_script(impl, lines, timeout=4 * timeout)
     traces, steps, results, notes = parse(out)
     if rc == 65:
         return [], 'not-error-free', traces, steps, results, notes
